@@ -13,6 +13,16 @@ class Prop(RefProp):
                'p_fmt_groupname': 0.35, 'n_pipes': (1, 1), 'n_groups': (2, 5)}
     rule = ('generated call/jump/switch graphs; callers under foreach/while/retry; callees that loop, call '
             'deeper, and contextclear i / whileCounter / retryCounter / call / switch or contextclearall; group '
-            'names literal or {grp}. Probes record (i, whileCounter, retryCounter) and watch call/switch '
+            'names literal or {grp}; groups that call themselves from a looping step (bounded by a counter). Probes record (i, whileCounter, retryCounter) and watch call/switch '
             'config. Monitor: reference interpreter: counters and watched config at every probe')
     trusted_base = EngineProp.engine_trusted
+
+    def generate(self, rng, n, tier):
+        import gen_pipes
+        cases = []
+        for _ in range(n):
+            case = gen_pipes.gen_case(rng, self.profile)
+            if rng.random() < 0.06:
+                gen_pipes.recursive_call(rng, case)
+            cases.append(case)
+        return cases
